@@ -108,6 +108,34 @@ theorem C13_method_tuple (E : Env α δ) (m : α → Res α) (h : α → α) (x 
   rw [mapE_ok_of_forall hm]
   simp [hnarr]
 
+/-- `x[k]` is list indexing: for `-n ≤ k < n` it is block `k` (counted from the end when negative),
+    otherwise `IndexError` -/
+theorem C13_getitem (self : List α) (k : Int) :
+    (0 ≤ k → k < self.length → getItem self k = (self[k.toNat]?).elim (.error .index) .ok) ∧
+    (k < 0 → -(self.length : Int) ≤ k →
+        getItem self k = (self[(k + self.length).toNat]?).elim (.error .index) .ok) ∧
+    (k < -(self.length : Int) ∨ (self.length : Int) ≤ k → getItem self k = .error .index) := by
+  refine ⟨?_, ?_, ?_⟩
+  · intro h0 h1
+    have h2 : ¬ (k < 0) := by omega
+    have h3 : ¬ ((self.length : Int) ≤ k) := by omega
+    unfold getItem
+    simp only [h2, h3, if_false, or_self]
+    cases self[k.toNat]? <;> rfl
+  · intro h0 h1
+    have h2 : ¬ (k + (self.length : Int) < 0) := by omega
+    have h3 : ¬ ((self.length : Int) ≤ k + self.length) := by omega
+    unfold getItem
+    simp only [h0, if_true, h2, h3, or_self, if_false]
+    cases self[(k + (self.length : Int)).toNat]? <;> rfl
+  · intro h
+    unfold getItem
+    by_cases hk : k < 0
+    · have h2 : k + (self.length : Int) < 0 := by omega
+      simp only [hk, if_true, h2, true_or]
+    · have h2 : (self.length : Int) ≤ k := by omega
+      simp only [hk, if_false, h2, or_true, if_true]
+
 /-! ### `map_func_over_blocks` -/
 
 /-- the number of blocks is taken from the first `BlockArray` in the order
